@@ -1,6 +1,7 @@
 import ColoVerif.Proofs.LegalizeLegalCircuit
 import ColoVerif.Proofs.LegalizeTrivialTop
 import ColoVerif.Model.LegacyLegalize
+import ColoVerif.Proofs.GeomTie
 /-
 C01 — legalization returns a legal placement or fails loudly.
 
@@ -235,5 +236,35 @@ theorem legacy_tetris_turned_overlap :
 moving a cell to another segment into a negative number, which beats the cost 0 of staying. -/
 theorem legacy_cost_narrowing_negative : LegacyLegalize.narrowedCost = -1389934592 ∧ (0 : Int) ≤ 40000 * 180000 := by
   decide
+
+/-- The shared geometry layer under the legalization model is *translated from the C++ source*: the
+definitions of `Gen/GeomFns.lean`, regenerated on every run from the clang AST of the bodies of
+`Rectangle(int,int,int,int)`, `Rectangle::height`, `isTurn`, `Circuit::x / y / orientation / isFixed / isObstruction /
+placedWidth / placedHeight / placement`, are equal as functions to the hand-written `Rect.*` / `Cell.*` that
+`Legalize.fromCircuit` (placed sizes, targets, orientations), the row-height tests and `Circuit.computeRows` (placements
+of the fixed obstructions) are written in.  A semantic change of one of these bodies breaks this theorem. -/
+theorem geometry_layer_translated :
+    Gen.Geom.Rectangle_ctor = Rect.mk ∧
+    Gen.Geom.Rectangle_height = Rect.height ∧
+    Gen.Geom.isTurn = Orient.isTurn ∧
+    Gen.Geom.Circuit_x = Cell.x ∧
+    Gen.Geom.Circuit_y = Cell.y ∧
+    Gen.Geom.Circuit_orientation = Cell.orient ∧
+    Gen.Geom.Circuit_isFixed = Cell.fixed ∧
+    Gen.Geom.Circuit_isObstruction = Cell.obstruction ∧
+    Gen.Geom.Circuit_placedWidth = Cell.placedWidth ∧
+    Gen.Geom.Circuit_placedHeight = Cell.placedHeight ∧
+    Gen.Geom.Circuit_placement = Cell.placement :=
+  ⟨GeomTie.gen_Rectangle_ctor_eq_model,
+   GeomTie.gen_Rectangle_height_eq_model,
+   GeomTie.gen_isTurn_eq_model,
+   GeomTie.gen_Circuit_x_eq_model,
+   GeomTie.gen_Circuit_y_eq_model,
+   GeomTie.gen_Circuit_orientation_eq_model,
+   GeomTie.gen_Circuit_isFixed_eq_model,
+   GeomTie.gen_Circuit_isObstruction_eq_model,
+   GeomTie.gen_Circuit_placedWidth_eq_model,
+   GeomTie.gen_Circuit_placedHeight_eq_model,
+   GeomTie.gen_Circuit_placement_eq_model⟩
 
 end ColoVerif.C01
